@@ -2,10 +2,10 @@ package rules
 
 func init() {
 	Properties["C17"] = &Property{
-		ID:        "C17",
-		Level:     "proof",
-		Technique: "static analysis: all-paths SSA rule over every bufio.Scanner (SCAN-ERR) plus error-propagation obligations up the repository call graph",
-		Explanation: "Every *bufio.Scanner value of the module is enumerated from the SSA form. For each, every control-flow path from a false result of Scan() to a function exit must call Err() on the same scanner (or the scanner must have an effectively unlimited buffer), and the Err() result must be returned or lead to a loud exit; the obligations ERR-DROP/ERR-HANDLE/ERR-EXIT then cover every call site on the call chains from the scanning functions up to the command entry points, so an overflow cannot be turned into a success on the way out.",
+		ID:            "C17",
+		Level:         "proof",
+		Technique:     "static analysis: all-paths SSA rule over every bufio.Scanner (SCAN-ERR) plus error-propagation obligations up the repository call graph",
+		Explanation:   "Every *bufio.Scanner value of the module is enumerated from the SSA form. For each, every control-flow path from a false result of Scan() to a function exit must call Err() on the same scanner (or the scanner must have an effectively unlimited buffer), and the Err() result must be returned or lead to a loud exit; the obligations ERR-DROP/ERR-HANDLE/ERR-EXIT then cover every call site on the call chains from the scanning functions up to the command entry points, so an overflow cannot be turned into a success on the way out.",
 		DoesNotDecide: "Other ways of splitting lines (bytes.Split, strings.Split) have no length limit and are outside the rule. Memory exhaustion is not modelled.",
 		Assumptions:   append([]string{"bufio.Scanner stops at a token longer than its buffer limit with Scan()==false and Err()==ErrTooLong (documented behaviour)"}, commonAssumptions...),
 		TrustedBase:   commonTrusted,
@@ -16,16 +16,16 @@ func init() {
 		},
 	}
 	Properties["C16"] = &Property{
-		ID:        "C16",
-		Level:     "other",
-		Technique: "static analysis: error-discipline rules over SSA (dropped errors, nil tests without a failing side, error logs followed by success, unterminated log events, exit status wiring)",
-		Explanation: "Every call site of the module whose callee returns an error is an obligation: the error must be used (ERR-DROP) and must either be returned or have a nil test whose non-nil side ends, on every path, in a loud exit, a non-nil error return or a recorded failure flag (ERR-HANDLE, ERR-FLAG). After every error-level log emission no path may return a nil error or fall off the end of a function without error result (ERR-LOG). Every zerolog event chain must be sent (ERR-EVENT) and cobra's error becomes exit status 1 (ERR-EXIT). VALIDATE covers faults that surface as values rather than errors.",
+		ID:            "C16",
+		Level:         "other",
+		Technique:     "static analysis: error-discipline rules over SSA (dropped errors, nil tests without a failing side, error logs followed by success, unterminated log events, exit status wiring)",
+		Explanation:   "Every call site of the module whose callee returns an error is an obligation: the error must be used (ERR-DROP) and must either be returned or have a nil test whose non-nil side ends, on every path, in a loud exit, a non-nil error return or a recorded failure flag (ERR-HANDLE, ERR-FLAG). After every error-level log emission no path may return a nil error or fall off the end of a function without error result (ERR-LOG). Every zerolog event chain must be sent (ERR-EVENT) and cobra's error becomes exit status 1 (ERR-EXIT). VALIDATE covers faults that surface as values rather than errors.",
 		DoesNotDecide: "Faults that surface as a wrong value rather than an error or a failed test; that nothing was printed before the failure is decided only structurally (the regex is printed by generate after the loud test of Run's error).",
 		Assumptions:   commonAssumptions,
 		TrustedBase:   commonTrusted,
 		Run: func(c *Ctx, tier string) []*Result {
 			drop, handle := c.RuleErrCached()
-			return []*Result{drop, handle, c.RuleErrFlags(), c.RuleErrLog(), c.RuleErrEvent(), c.RuleErrExit(), c.RuleValidate(), c.RuleIsoFresh()}
+			return []*Result{drop, handle, c.RuleErrFlags(), c.RuleErrLog(), c.RuleErrEvent(), c.RuleErrExit(), c.RuleValidate(), c.RuleIsoFresh(), c.RuleFsWriteDiscipline(), c.RuleNarrow(), c.RuleSiblingRuleId(), c.RuleFlagsReject(), c.RuleProcStart()}
 		},
 	}
 }
